@@ -113,6 +113,12 @@ impl Exec {
         let s = match res { Ok(m) => { self.regs.insert(a.to_string(), m); "ok".to_string() } Err(_) => "panic".into() };
         self.emit(format!("defmass {}", a), s);
     }
+    pub fn fill(&mut self, a: &str, c: f64) {
+        let m = self.regs.get_mut(a).unwrap();
+        let res = catch_unwind(AssertUnwindSafe(|| m.fill(c)));
+        let s = match res { Ok(()) => "ok".to_string(), Err(_) => "panic".into() };
+        self.emit(format!("fill {} {}", a, hx(c)), s);
+    }
     pub fn isid(&mut self, a: &str) {
         let m = self.regs.get(a).unwrap();
         let res = catch_unwind(AssertUnwindSafe(|| m.is_identity()));
@@ -216,6 +222,15 @@ pub fn random_case(ex: &mut Exec, rng: &mut Rng, maxn: usize) {
     for r in names.iter() {
         ex.isid(r);
         ex.read_all(r);
+    }
+    // fill: afterwards every entry reads the constant, whatever the storage was
+    {
+        let r = *rng.pick(&names);
+        let c = if rng.chance(0.3) { 0.0 } else { rand_val(rng) };
+        ex.fill(r, c);
+        ex.dump(r);
+        ex.read_all(r);
+        ex.isid(r);
     }
     // the default mass matrix on a fresh matrix of every storage kind, and on whatever is in A
     let st = match rng.below(3) { 0 => format!("fromstorage {} {} identity", n, n), 1 => format!("fromstorage {} {} full", n, n), _ => format!("fromstorage {} {} banded {} {}", n, n, rng.below(n), rng.below(n)) };
@@ -368,6 +383,27 @@ pub fn oracle(args: &[String]) {
             } }
             println!("{{\"kind\":\"moracle\",\"case\":\"near-identity\",\"n\":{},\"op\":\"is_identity\",\"a\":\"{}\",\"ok\":{},\"finding_key\":\"c17-is-identity\",\"why\":{:?}}}", n, storage_str(&st), why.is_empty(), why);
         }
+    }
+    // directed: fill on every storage (Identity, Full, every bandwidth pair, n <= 4) with a zero and a non-zero constant
+    for n in 1..=4usize {
+        let mut specs: Vec<MatrixStorage> = vec![MatrixStorage::Identity, MatrixStorage::Full];
+        for ml in 0..n { for mu in 0..n { specs.push(MatrixStorage::Banded { ml, mu }); } }
+        for st in specs { for c in [0.0, 2.5] {
+            let mut a = Matrix::from_storage(n, n, st.clone());
+            let mut why = String::new();
+            match catch_unwind(AssertUnwindSafe(|| { a.fill(c); a })) {
+                Err(_) => why = "fill panicked".into(),
+                Ok(a) => match dense_of(&a) {
+                    None => why = "matrix cannot be read after fill".into(),
+                    Some(d) => {
+                        if let Some(k) = (0..n * n).find(|k| d[*k] != c) { why = format!("after fill({}) entry ({},{}) reads {}", c, k / n, k % n, d[k]); }
+                        let isid_dense = (0..n * n).all(|k| d[k] == if k / n == k % n { 1.0 } else { 0.0 });
+                        if why.is_empty() && a.is_identity() != isid_dense { why = format!("after fill({}): is_identity = {} but the entries say {}", c, a.is_identity(), isid_dense); }
+                    }
+                },
+            }
+            println!("{{\"kind\":\"moracle\",\"case\":\"fill\",\"n\":{},\"op\":\"fill\",\"a\":\"{}\",\"scalar\":{},\"ok\":{},\"finding_key\":\"c17-fill\",\"why\":{:?}}}", n, storage_str(&st), c, why.is_empty(), why);
+        } }
     }
     for case in 0..cases {
         let n = 1 + rng.below(maxn);
